@@ -1,5 +1,6 @@
 """C13 -- Nesterov-Todd identities (decided exactly for the nonnegative cone, structurally for the shared
 symmetric-cone utilities; NOT decided for the second-order and PSD formulas)"""
+import re
 from fractions import Fraction
 from engine.mir import last_seg, AnchorError, strip_generics
 from engine.preds import canon, Walker
@@ -27,7 +28,8 @@ EXPLANATION = (
     "w on every successful path is w0 = sqrt(1 + <w1,w1>); (R6) PSD mul_W / mul_Winv are the words R'XR (N) and RXR' (T) over R "
     "resp. Rinv; (R7) set_identity_scaling resets every field that update_scaling computes and an operator reads; (R8) the "
     "sparse expansion written into the KKT matrix (diagonal d, columns u and v, extension diagonal, pivot signs) has Schur "
-    "complement eta^2 (2 w w' - J), proved as rational-function identities on the hyperboloid.")
+    "complement eta^2 (2 w w' - J), proved as rational-function identities on the hyperboloid; (R9) the composite cone hands "
+    "every cone exactly its own range of every vector argument.")
 ASSUMPTIONS = ['rustc MIR construction and trait resolution are correct',
                'sqrt, *, /, dot, norm, axpby, waxpby, scale on T are the real operations (identities are over the reals, not floating point); s, z interior',
                'the diagonal KKT block is minus get_Hs (decided under C11)']
@@ -755,6 +757,43 @@ def soc_sparse_expansion(rep, ctx, cfg, tag):
     R.guard(body)
 
 
+# ---------------------------------------------------------------------------
+# composite dispatch: each cone sees exactly its own slice of every vector
+# ---------------------------------------------------------------------------
+
+
+def composite_slices(rep, F, tag, rid='C13.R9'):
+    """CompositeCone forwards every operation to its cones, cone by cone.  Whatever vector arguments the operation has, cone i
+    must receive the sub-slice v[rng_i] of each - the range element of zip(cones, rng_cones) (rng_blocks for the Hs blocks),
+    cloned or not.  An open-ended slice v[rng.start..] is accepted by the type checker and by cones that only look at their
+    first numel entries, but a second-order cone computes its residual over the whole slice it is given."""
+    R = rep.rule(rid, 'composite cone: every per-cone call receives exactly the cone\'s own range of every vector argument')
+
+    def body():
+        n = 0
+        for f in F.fns:
+            if not ((f.impl_adt or '').endswith('CompositeCone') or 'CompositeCone' in (f.impl_self or '')):
+                continue
+            for g in [f] + list(F.closures_of.get(f.key, [])):
+                for c in g.calls:
+                    if c.callee.name != f.name or c.callee.local is False:
+                        continue
+                    args = [canon(g.sym_operand(a)) for a in c.args]
+                    if not args or '@Some.0.0' not in args[0]:
+                        continue
+                    n += 1
+                    rng = args[0].replace('@Some.0.0', '@Some.0.1')
+                    for a in args[1:]:
+                        m = re.match(r'index(_mut)?\(((arg\d+)(\._ref__\w+)?), (.*)\)$', a)
+                        if not m:
+                            continue
+                        R.check(m.group(5) == rng, 'own-range|%s|%s%s' % (f.name, m.group(2), tag),
+                                'CompositeCone::%s passes %s[%s] to a cone: every vector must be cut to the cone\'s own range (%s)' % (f.name, m.group(2), m.group(5)[-60:], rng[-40:]), g.loc(c.sp))
+        R.check(n >= 10, 'dispatch-sites' + tag, 'only %d per-cone dispatch sites of the composite cone analysed' % n)
+
+    R.guard(body)
+
+
 def run(ctx, rep, tier):
     for cfg in (CONFIGS_THOROUGH if tier == 'thorough' else CONFIGS):
         tag = '' if cfg == 'default' else '[%s]' % cfg
@@ -765,6 +804,7 @@ def run(ctx, rep, tier):
         psd_words(rep, ctx, cfg, tag)
         reset_completeness(rep, ctx, cfg, tag)
         soc_sparse_expansion(rep, ctx, cfg, tag)
+        composite_slices(rep, ctx.facts(cfg), tag)
     from . import c11
     F, E = ctx.facts('default'), ctx.eff('default')
     c11.one_scaling_state(_Ren(rep, 'C11.R5', 'C13.R3'), F, E, '')
